@@ -139,7 +139,17 @@ def shut (c impl : List String) : Option Verdict := do
       | some b => e.t == b.t + latOf cs.lat e.idx
       | none => false)
   let late := !exact && status == "nil" && ok && lateBegins && endsOk
+  -- a transmission due at the very stop instant may or may not be started (the timer and the
+  -- cancellation are concurrent): the prediction that includes it is equally allowed
+  let cs2 : ShutCase := { cs with adv := { cs.adv with stop := cs.adv.stop + 1 } }
+  let model2 := timeline cs2
+  let tie := model2 != model
+  let exact2 := tie && status == "nil" && sortedImpl == model2
+  let modelB2 := model2.filter fun e => e.kind == "B" && e.lifetime != 0
+  let lateBegins2 := ((modelB2 ++ implB).map (fun e => (e.mc, e.host)) |>.eraseDups).all fun d =>
+    lateDst ((modelB2.filter fun e => (e.mc, e.host) == d).map (·.t)) ((implB.filter fun e => (e.mc, e.host) == d).map (·.t))
+  let late2 := tie && !exact2 && status == "nil" && ok && lateBegins2 && endsOk
   pure { model := modelStr, oracle := ok, nontrivial := nt, note := note,
-         agreeOverride := some (exact || late) }
+         agreeOverride := some (exact || late || exact2 || late2) }
 
 end Driver.C08
